@@ -85,7 +85,7 @@ def judge(args):
                 fh.write(text)
         todo = [(p, r) for p, r in variant["fire"].items()] + [(p, None) for p in variant["silent"]]
         for prop, rule in todo:
-            pr = subprocess.run([sys.executable, os.path.join(VERIF, "run.py"), prop, "--src", tree, "--no-evidence"],
+            pr = subprocess.run([sys.executable, os.path.join(VERIF, "run.py"), prop, "--src", tree, "--no-evidence", "--tier", variant.get("tier", "quick")],
                                 capture_output=True, text=True, cwd=VERIF)
             out = pr.stdout
             fired = sorted(set(re.findall(r"\[(C\d\d\.R\w+)\]", "\n".join(l for l in out.splitlines() if not l.startswith("KNOWN-FINDING")))))
